@@ -259,7 +259,7 @@ func genC10(o *vcoq.Out, r *vcoq.Rand, tier string) error {
 	o.Shard = 130
 	o.Rule = "distinct (script of controller actions with all observations) for KScript/KPipe, distinct end-of-run record for free-running cases; non-trivial = at least one cancel inside a Send/stop window, or a blocked writer, or a receive racing a close"
 	g := &gen{o: o, r: r, tier: tier}
-	nScript, nPipe, nFree := 2500, 1500, 160
+	nScript, nPipe, nFree := 1800, 1100, 120
 	if tier == "thorough" {
 		nScript, nPipe, nFree = 30000, 18000, 2000
 	}
